@@ -21,6 +21,7 @@ pub struct Norm {
     pub copied_to_map: bool,
     pub opaque_into: bool,
     pub option_combinators: bool,
+    pub map_collect: bool,
     pub keep_unreachable: bool,
     pub collect_as_set: Vec<String>,
     pub acc_type: Option<String>,
@@ -356,6 +357,7 @@ impl Norm {
             copied_to_map: req["copied_to_map"].as_bool().unwrap_or(false),
             opaque_into: req["opaque_into"].as_bool().unwrap_or(false),
             option_combinators: req["option_combinators"].as_bool().unwrap_or(false),
+            map_collect: req["map_collect"].as_bool().unwrap_or(false),
             keep_unreachable: req["keep_unreachable"].as_bool().unwrap_or(false),
             collect_as_set: strs("collect_as_set"),
             acc_type: req["acc_type"].as_str().map(|x| x.to_string()),
@@ -1118,6 +1120,17 @@ impl VisitMut for Norm {
             }
             _ => visit_mut::visit_expr_mut(self, e),
         }
+        // N8e (reference form): `for P in &mut R { B }` is `for P in R.iter_mut() { B }` (IntoIterator for &mut Vec); option name `&mut`
+        if let Expr::ForLoop(f) = e {
+            if let Expr::Reference(r) = &*f.expr {
+                if r.mutability.is_some() && self.keyed_mut_iter.iter().any(|(m, _, _)| m == "&mut") {
+                    let inner = (*r.expr).clone();
+                    let ne: Expr = parse_quote!(#inner.iter_mut());
+                    *f.expr = ne;
+                    for x in self.keyed_mut_iter.iter_mut() { if x.0 == "&mut" { x.0 = "iter_mut".to_string(); } }
+                }
+            }
+        }
         // N8e: `for P in R.values_mut_like() { B }` => iterate a snapshot of the keys and fetch each value mutably
         if let Expr::ForLoop(f) = e {
             if let Expr::MethodCall(mc) = &*f.expr {
@@ -1404,6 +1417,30 @@ impl VisitMut for Norm {
                                 };
                                 *e = ne;
                                 self.log("N8j-filter_map-collect-to-loop", sp);
+                            }
+                        }
+                    }
+                    "collect" if mc.args.is_empty() && self.map_collect && matches!(&*mc.receiver, Expr::MethodCall(i) if i.method == "map" && i.args.len() == 1
+                        && matches!(&i.args[0], Expr::Closure(c) if c.inputs.len() == 1 && !body_has_return(&c.body))) => {
+                        // N8n (option map_collect=1, for functions that collect such chains into a Vec): ITER.map(|p| B).collect() => push loop over ITER (definition)
+                        if let Expr::MethodCall(inner) = &*mc.receiver {
+                            if let Expr::Closure(c) = &inner.args[0] {
+                                let it = &inner.receiver;
+                                let pat = match c.inputs[0].clone() {
+                                    Pat::Type(pt) => *pt.pat,
+                                    p => p,
+                                };
+                                let body = &c.body;
+                                let acc = self.fresh("vec");
+                                let ne: Expr = match &self.acc_type {
+                                    Some(t) => {
+                                        let ty: Type = syn::parse_str(t).expect("acc_type");
+                                        parse_quote!({ let mut #acc: #ty = Vec::new(); for #pat in #it { #acc.push(#body); } #acc })
+                                    }
+                                    None => parse_quote!({ let mut #acc = Vec::new(); for #pat in #it { #acc.push(#body); } #acc }),
+                                };
+                                *e = ne;
+                                self.log("N8n-map-collect-to-loop", sp);
                             }
                         }
                     }
